@@ -161,6 +161,10 @@ def instances(tier, seed):
     for api_ in ("parse", "build", "sizeof"):
         for k in INNER_KINDS + ["FocusedSeq"]:
             out.append(dict(name="flags %s in %s" % (api_, k), params=dict(kind="flags", api=api_, scope=k)))
+            if api_ != "sizeof" and k != "LazyStruct":
+                out.append(dict(name="flags %s in %s, compiled" % (api_, k), params=dict(kind="flags", api=api_, scope=k, compiled=True)))
+    for shape in ("flat", "nested", "root"):
+        out.append(dict(name="members a LazyStruct had to parse are in scope for the members after them: %s" % shape, params=dict(kind="lazyeager", shape=shape)))
     return out
 
 
@@ -353,6 +357,21 @@ def harness(ctx, C, p):
         rp = api.outcome(d.parse, rb.value)
         ctx.check("parse of the built bytes succeeds and yields the member", rp.ok and ctx.fork(ctx.eq(rp.value[key], body)) and ctx.fork(ctx.eq(rp.value["t"], t)))
         return "ok"
+    if p.get("kind") == "lazyeager":
+        # a member that cannot be measured (VarInt, CString) is parsed on the spot; like in Struct it is then visible to later members
+        shape = p["shape"]
+        src_ = {"flat": "LazyStruct('n'/VarInt, 'd'/Bytes(this.n & 3), 't'/Byte)",
+                "nested": "LazyStruct('n'/VarInt, 'in'/Struct('d'/Bytes(this._.n & 3)), 't'/Byte)",
+                "root": "LazyStruct('s'/CString('ascii'), 'n'/VarInt, 'in'/Struct('q'/Struct('d'/Bytes(this._root.n & 3))), 't'/Byte)"}[shape]
+        lazy, eager = mk(C, src_), mk(C, src_.replace("LazyStruct(", "Struct("))
+        data = ctx.bytes("data", 6)
+        se, sl = ctx.stream(data), ctx.stream(data)
+        re_, rl = api.outcome(eager.parse_stream, se), api.outcome(lazy.parse_stream, sl)
+        if not re_.ok:
+            return "eager-reject"
+        ctx.check("the LazyStruct parses what the Struct parses (a later length refers to a member parsed on the spot) (got %s)" % ("ok" if rl.ok else type(rl.exc).__name__ + ": " + str(rl.exc)[:50]), rl.ok)
+        ctx.check("same end position and same trailer", sl.tell() == se.tell() and ctx.fork(ctx.eq(rl.value["t"], re_.value["t"])))
+        return "ok"
     if p.get("kind") == "indexdiscard":
         # every repeater publishes the element's position as _index, while building exactly as while parsing, discard or not
         d = mk(C, p["rep"].format("Struct('v'/Bytes(this._index + 1), 'i'/Computed(this._index))"))
@@ -483,6 +502,8 @@ def _flags(ctx, C, p):
     else:
         src_ = "%s('s'/Struct(%s))" % (scope, flags)
     d = mk(C, src_)
+    if p.get("compiled"):
+        d = d.compile()
     a, b = ctx.int("a", 0, 255), ctx.int("b", 0, 65535)
     inner = dict(fp=None, fb=b, fs=None, deep=dict(q=None, r=b))
     if api_ == "build":
